@@ -67,6 +67,7 @@ func TestFailFastGated(t *testing.T) {
 		t.Skip("GROG_BIN not set")
 	}
 	type Case struct {
+		Queue   int  `json:"queued_failing_targets"` // scenario B when > 0: one worker, this many independent targets that sleep and fail
 		Chains  int  `json:"independent_chains"`
 		Workers int  `json:"workers"`
 		DirOut  bool `json:"dir_outputs"`
@@ -74,10 +75,51 @@ func TestFailFastGated(t *testing.T) {
 	}
 	pbt.Main(t, pbt.Spec[Case]{ID: "C05",
 		Gen: func(t *rapid.T) Case {
-			return Case{Chains: rapid.IntRange(1, 3).Draw(t, "chains"), Workers: rapid.IntRange(2, 6).Draw(t, "workers"), DirOut: rapid.Bool().Draw(t, "dirout"), Warm: rapid.Bool().Draw(t, "warm")}
+			c := Case{Chains: rapid.IntRange(1, 3).Draw(t, "chains"), Workers: rapid.IntRange(2, 6).Draw(t, "workers"), DirOut: rapid.Bool().Draw(t, "dirout"), Warm: rapid.Bool().Draw(t, "warm")}
+			if rapid.IntRange(0, 2).Draw(t, "queue-scenario") == 0 {
+				c.Queue = rapid.IntRange(3, 7).Draw(t, "queue")
+				c.Workers = rapid.IntRange(1, 2).Draw(t, "qworkers")
+			}
+			return c
 		},
 		Run: func(c Case) (pbt.Result, error) {
 			res := pbt.Result{NonTrivial: true}
+			if c.Queue > 0 {
+				// scenario B: more ready targets than workers; each sleeps 0.4 s and fails. Once the first failure is observed the
+				// queued ones must not start: at most `workers` commands may ever have started.
+				w := histeng.WS{Files: map[string]string{"top.txt": "x"}, Workers: c.Workers, Algo: "xxh3"}
+				ext := histeng.NewExt()
+				for i := 0; i < c.Queue; i++ {
+					tg := histeng.Target{Pkg: "", Name: fmt.Sprintf("q%d", i), Inputs: []string{"top.txt"}, SlowMs: 400, OutFiles: []string{fmt.Sprintf("out/q%d.txt", i)}}
+					w.Targets = append(w.Targets, tg)
+					ext.Fail[tg.ID()] = true
+				}
+				base, err := os.MkdirTemp("", "c05q-")
+				if err != nil {
+					return pbt.Result{Discard: true}, nil
+				}
+				defer os.RemoveAll(base)
+				sb, err := histeng.NewSandbox(base, os.Getenv("GROG_BIN"))
+				if err != nil {
+					return pbt.Result{Discard: true}, nil
+				}
+				_ = sb.Sync(w)
+				_ = sb.SyncExt(ext)
+				r := sb.Build(histeng.BuildOpts{Patterns: []string{"//..."}, FailFast: true}, 120e9)
+				started := 0
+				for _, n := range r.Started {
+					started += n
+				}
+				tail := fmt.Sprintf("\nworkers=%d targets=%d exit=%d wall=%v trace=%v\n%s", c.Workers, c.Queue, r.Exit, r.Wall, r.Lines, r.Out)
+				if r.Exit == 0 {
+					return res, pbt.Fail("C05:exit-zero-despite-failure", "every target fails, yet grog exited 0%s", tail)
+				}
+				if started > c.Workers {
+					return res, pbt.Fail("C05:start-after-fail-fast", "%d commands started with %d workers under --fail-fast although each of them fails: queued targets were started after the first failure%s", started, c.Workers, tail)
+				}
+				res.Classes = append(res.Classes, "queue-scenario")
+				return res, nil
+			}
 			w := histeng.WS{Files: map[string]string{"top.txt": "x"}, Workers: c.Workers + c.Chains, Algo: "xxh3"}
 			w.Targets = append(w.Targets, histeng.Target{Pkg: "", Name: "f", Inputs: []string{"top.txt"}, Gate: "//:b1_0", OutFiles: []string{"out/f.txt"}})
 			for i := 0; i < c.Chains; i++ {
